@@ -945,6 +945,12 @@ namespace Clipper2Lib
 
       ip.x = originx + (T)nearbyint(hitx);
       ip.y = originy + (T)nearbyint(hity);
+      // as in the default variant (which clamps t to 0..1),
+      // never leave the first segment's bounding box
+      if (ip.x < bb0minx) ip.x = bb0minx;
+      else if (ip.x > bb0maxx) ip.x = bb0maxx;
+      if (ip.y < bb0miny) ip.y = bb0miny;
+      else if (ip.y > bb0maxy) ip.y = bb0maxy;
     }
     else
     {
